@@ -139,6 +139,7 @@ static inline void kit_cpu_deadline(int seconds) {
   alarm((unsigned) (seconds * 10 + 60));
 }
 
+static const long HANG_CONFIRM_FACTOR = 8;
 struct Harness {
   virtual ~Harness() {}
   virtual const char* name() const = 0;
@@ -255,7 +256,8 @@ struct Kernel {
           }
         }
         for (size_t j = 0; j < plans.size(); ++j) {
-          { const char* ov = getenv("VERIF_CHILD_SECONDS"); kit_cpu_deadline(ov ? atoi(ov) : hs.child_seconds()); }   // (override: debug aid)
+          { const char* ov = getenv("VERIF_CHILD_SECONDS"); long mult = sh->scratch[14] > 1 ? sh->scratch[14] : 1;
+            kit_cpu_deadline((int) ((ov ? atoi(ov) : hs.child_seconds()) * mult)); }   // (override: debug aid; multiplier: hang confirmation)
           sh->scratch[15] = (long) j; sh->cur_op = -1; sh->in_branch = 0; sh->kind[0] = 0; sh->fault[0] = 0; sh->note[0] = 0;
           Ctx ctx; ctx.plan = &plans[j]; ctx.sh = sh; ctx.out_fd = res;
           hs.run(plans[j], ctx);
@@ -514,6 +516,14 @@ static int worker_main(Harness& hs, Kernel& k, const BatchOpts& o, long w) {
       close(cfd);
       // Gate: two fresh re-executions must reproduce class and event hash.
       RunResult g1 = k.execute(plan), g2 = k.execute(plan);
+      // A hang is only reported when the plan also exhausts a budget HANG_CONFIRM_FACTOR times larger: the domains' algorithms
+      // are exponential in the worst case, and a plan that merely needs minutes is a heavy workload, not a livelock.
+      bool slow_not_hung = false;
+      if (v.monitor == "hang" && Kernel::has_cls(g1, cls) && Kernel::has_cls(g2, cls)) {
+        k.sh->scratch[14] = HANG_CONFIRM_FACTOR; RunResult g3 = k.execute(plan); k.sh->scratch[14] = 0;
+        if (!Kernel::has_cls(g3, cls)) { slow_not_hung = true; stats["kit.slow_plan_completes_with_larger_budget"]++; }
+      }
+      if (slow_not_hung) continue;
       if (v.monitor == "hang" && (!Kernel::has_cls(g1, cls) || !Kernel::has_cls(g2, cls))) {
         // a plan that exceeded its CPU budget once and completes when re-executed is a slow plan at the edge of
         // the budget, not a hang: counted, not reported
